@@ -33,6 +33,32 @@ SEPS = ['-', '/', '.', ' ']
 EXHAUSTIVE = {'thorough': True}
 
 
+EPOCH = D(1970, 1, 1)
+NS_MIN, NS_MAX = D(1677, 9, 21, 0, 12, 44), D(2262, 4, 11, 23, 47, 16)       # datetime64[ns] / int64 nanoseconds
+
+
+def _floor(t, td):
+    return t - ((t - EPOCH) % td)
+
+
+# unit -> t truncated to the unit, written independently of numpy (weeks are counted from 1970-01-01, a Thursday)
+NP_TRUNC = {'Y': lambda t: D(t.year, 1, 1), 'M': lambda t: D(t.year, t.month, 1), 'W': lambda t: _floor(t, TD(days=7)),
+            'D': lambda t: D(t.year, t.month, t.day), 'h': lambda t: _floor(t, TD(hours=1)), 'm': lambda t: _floor(t, TD(minutes=1)),
+            's': lambda t: _floor(t, TD(seconds=1)), 'ms': lambda t: _floor(t, TD(milliseconds=1)), 'us': lambda t: t}
+NP_TD = {'W': TD(days=7), 'D': TD(days=1), 'h': TD(hours=1), 'm': TD(minutes=1), 's': TD(seconds=1), 'ms': TD(milliseconds=1), 'us': TD(microseconds=1)}
+
+
+def np_value(t, u):
+    """the int64 a datetime64[u] of t holds (independent arithmetic: units since 1970-01-01, floor)"""
+    if u == 'Y':
+        return t.year - 1970
+    if u == 'M':
+        return (t.year - 1970) * 12 + t.month - 1
+    if u == 'ns':
+        return ((t - EPOCH) // TD(microseconds=1)) * 1000
+    return (t - EPOCH) // NP_TD[u]
+
+
 def special_days():
     out = []
     for y in (1900, 1901, 1904, 1999, 2000, 2001, 2024, 2100, 2200, 2299):
@@ -117,12 +143,19 @@ def spellings(t, rng, full):
     out.append(('datetime', L('ts', enc(t)), t))
     out.append(('pandas', L('pd', enc(t)), t))
     out.append(('numpy-us', L('np', s_('us'), enc(t)), t))
-    if t.year < 2262:
+    if NS_MIN < t < NS_MAX:
         out.append(('numpy-ns', L('np', s_('ns'), enc(t)), t))
-    if whole:
-        out.append(('numpy-s', L('np', s_('s'), enc(t)), t))
+        out.append(('pandas-ns', L('pdns', 'I:%d' % np_value(t, 'ns')), t))
+        out.append(('numpy-raw-ns', L('np64', s_('ns'), 'I:%d' % np_value(t, 'ns')), t))
+    # np.datetime64(t, unit) keeps whole units: dt() of it is t truncated to the unit (numpy-D: the day; W: the Thursday-based week of numpy)
+    for u, tr in NP_TRUNC.items():
+        if u not in ('us', 'D') and (full or rng.random() < 0.3):
+            out.append(('numpy-' + u, L('np', s_(u), enc(t)), tr(t)))
+    # the same through the raw int64 value of the datetime64 (what np2dt's arithmetic sees)
+    u = rng.choice(list(NP_TRUNC))
+    out.append(('numpy-raw-' + u, L('np64', s_(u), 'I:%d' % np_value(t, u)), NP_TRUNC[u](t)))
     out.append(('date', L('date', 'DT:%d' % proto.dt2us(day)), day))
-    out.append(('numpy-D', L('np', s_('D'), enc(day)), day))
+    out.append(('numpy-D', L('np', s_('D'), enc(t)), day))
     out.append(('parts', L('ymd', 'I:%d' % t.year, 'I:%d' % t.month, 'I:%d' % t.day), day))
     if whole:
         out.append(('parts-hms', L('ymd', *['I:%d' % x for x in (t.year, t.month, t.day, t.hour, t.minute, t.second)]), t))
@@ -205,6 +238,27 @@ def generate(rng, tier):
             yield dict(tag='us-str-read-as-uk-reject-ws', lines=[L('str', 'uk', s_(f(dialect_str(t, False, sep, pad, wt))))], expect='err ValueError')
             yield dict(tag='uk-str-read-as-us-reject-padsep', lines=[L('str', 'us', s_(padsep_str(rng, t, True, wt)))], expect='err ValueError')
             yield dict(tag='us-str-read-as-uk-reject-padsep', lines=[L('str', 'uk', s_(padsep_str(rng, t, False, wt)))], expect='err ValueError')
+    # ---- np2dt on raw datetime64 values (value, unit): every unit, the whole datetime range 0001..9999, the ends of the range, and
+    #      nanosecond values that are not whole microseconds (outside the property: t is a datetime; compared with the model only)
+    lo, hi = D(1, 1, 1), D(9999, 12, 31, 23, 59, 59, 999999)
+    for u in list(NP_TRUNC):
+        vlo, vhi = np_value(lo, u), np_value(hi, u)
+        if u == 'W':
+            vlo += 1                            # the week of 0001-01-01 starts in year 0
+        vals = [vlo, vlo + 1, vhi - 1, vhi, -1, 0, 1] + [rng.randint(vlo, vhi) for _ in range(40 if quick else 400)]
+        vals += [np_value(TMIN, u), np_value(TMAX, u) - 1] + [rng.randint(np_value(TMIN, u), np_value(TMAX, u)) for _ in range(40 if quick else 400)]
+        for v in vals:
+            yield dict(tag='np64-' + u, lines=[L('np64', s_(u), 'I:%d' % v)])
+        for v in (vlo - 1, vhi + 1, vlo - 1000, vhi + 1000):
+            yield dict(tag='np64-outside', lines=[L('np64', s_(u), 'I:%d' % v)])
+    i63 = 2 ** 63
+    for v in [-i63 + 1, i63 - 1, -1, 0, 1, 999, 1000, -999, -1000, -1001] + [rng.randint(-i63 + 1, i63 - 1) for _ in range(60 if quick else 600)]:
+        yield dict(tag='np64-ns', lines=[L('np64', s_('ns'), 'I:%d' % v)])
+        yield dict(tag='pd-ns', lines=[L('pdns', 'I:%d' % v)])
+    for _ in range(40 if quick else 400):
+        v = rng.randint(-i63 + 1, i63 - 1)
+        yield dict(tag='ymd()-np64', lines=[L('ymd/np64', s_('ns'), 'I:%d' % v)])
+        yield dict(tag='ymd()-pd', lines=[L('ymd/pdns', 'I:%d' % v)])
     # ---- month / day overflow
     ms, ds = list(range(-36, 49)), list(range(-400, 401))
     for _ in range(1500 if quick else 60000):
@@ -249,8 +303,8 @@ def generate(rng, tier):
 
 def as_plain(res):
     if isinstance(res, pd.Timestamp):
-        if res.nanosecond:
-            raise AssertionError('nanoseconds appeared')
+        if res.nanosecond:                      # an instant between two microseconds: (L T:<us> I:<nanoseconds>)
+            return 'ok (L %s I:%d)' % (enc(D(res.year, res.month, res.day, res.hour, res.minute, res.second, res.microsecond)), res.nanosecond)
         res = res.to_pydatetime()
     if not isinstance(res, datetime.datetime) or res.tzinfo is not None:
         return 'ok S:' + hexs(repr(res))
@@ -279,6 +333,10 @@ def call(op, args, fn):
         return as_plain(fn(pd.Timestamp(proto.dec_cell(args[0]))))
     if op == 'np':
         return as_plain(fn(np.datetime64(proto.dec_cell(args[1]), proto.dec_cell(args[0]))))
+    if op == 'np64':
+        return as_plain(fn(np.datetime64(int(args[1][2:]), proto.dec_cell(args[0]))))
+    if op == 'pdns':
+        return as_plain(fn(pd.Timestamp(int(args[0][2:]))))
     if op == 'str':
         return as_plain(fn(proto.dec_cell(args[1]), dialect=args[0]))
     if op == 'rt':
@@ -297,6 +355,7 @@ def run_line(state, sx):
 
 
 OUTSIDE = ('impossible-date', 'range-end', 'grid-num2dt')
+UNMODELLED = ('np64-outside',)     # the model answers bad-op (instants outside year 1..9999): nothing to compare
 
 
 def compare(case, i, line, ir, mr):
@@ -309,6 +368,8 @@ def compare(case, i, line, ir, mr):
     if proto.same_reply(ir, mr):
         return None
     if mr == 'bad-op':
+        if tag in UNMODELLED:
+            return None
         return ('divergence', 'the model does not cover this line (implementation: %s)' % ir)
     msg = 'implementation %s, model %s' % (ir, mr)
     if tag in OUTSIDE or tag.endswith('read-as-us') or tag.endswith('read-as-uk'):
